@@ -10,6 +10,7 @@ import (
 
 	"github.com/jamespfennell/gtfs"
 	"github.com/jamespfennell/gtfs/extensions/nycttrips"
+	"github.com/jamespfennell/gtfs/verifhook"
 )
 
 type Journal struct {
@@ -84,6 +85,7 @@ func NewDirectoryGtfsrtSource(baseDir string) (*DirectoryGtfsrtSource, error) {
 func (s *DirectoryGtfsrtSource) Next() *gtfs.Realtime {
 	for {
 		if len(s.fileNames) == 0 {
+			verifhook.Emit("dir.end")
 			return nil
 		}
 		filePath := filepath.Join(s.baseDir, s.fileNames[0])
@@ -92,6 +94,7 @@ func (s *DirectoryGtfsrtSource) Next() *gtfs.Realtime {
 		if err != nil {
 			// TODO: debug logging
 			// log.Printf("Failed to read %s: %s", filePath, err)
+			verifhook.Emit("dir.file", filePath, "read-error", len(s.fileNames))
 			continue
 		}
 		extension := nycttrips.Extension(nycttrips.ExtensionOpts{
@@ -104,6 +107,7 @@ func (s *DirectoryGtfsrtSource) Next() *gtfs.Realtime {
 		if err != nil {
 			// TODO: debug logging
 			// log.Printf("Failed to parse %s as a GTFS Realtime message: %s", filePath, err)
+			verifhook.Emit("dir.file", filePath, "parse-error", len(s.fileNames))
 			continue
 		}
 		if time.Since(s.t) >= time.Second {
@@ -111,6 +115,7 @@ func (s *DirectoryGtfsrtSource) Next() *gtfs.Realtime {
 			// log.Printf("Processed %d/%d files\n", s.startLen-len(s.fileNames), s.startLen)
 			s.t = time.Now()
 		}
+		verifhook.Emit("dir.file", filePath, "ok", len(s.fileNames))
 		return result
 	}
 }
@@ -146,6 +151,7 @@ func BuildJournal(source GtfsrtSource, startTime, endTime time.Time) *Journal {
 			trips[tripUID].markPast(createdAt)
 		}
 		activeTrips = newActiveTrips
+		verifhook.Emit("journal.feed", i, createdAt, trips, activeTrips)
 		i++
 	}
 	var tripIDs []string
